@@ -10,7 +10,7 @@ func init() {
 	register(&propDef{
 		id: "C44", title: "Work-pulling delivers every job to some worker",
 		technique: "conservation rules on the CFG (a job leaves one container only into another), field write tables with value shapes, guard dominance (edge facts), who-may-call confinement over the work-pulling producer controller",
-		explanation: "Decides job conservation inside the work-pulling controller: a job lives in exactly one of {pending pool, a binding's unconfirmed list} until it is confirmed, and every move keeps it: (1) pending shrinks only in dispatchPending, where the removed head is appended to the chosen binding's unconfirmed list and emitted on every non-terminal path; pending grows only by acceptance (guarded by !owns, so a resubmitted job is not duplicated), by reload, and by requeue; (2) a binding is removed from the table only in endBinding, which first returns all of its unconfirmed jobs to the head of the pending pool with their MessageID, store sequence and payload; a replaced binding is ended before the new one is installed; every caller of endBinding runs progress() afterwards so requeued jobs are dispatched to the remaining workers; a worker's termination ends its binding; (3) entries leave an unconfirmed list only in advanceConfirmed as the prefix with workerSeq ≤ the confirmation, which is applied only for an authenticated binding after the range check; the producer-side confirmation notice is sent for exactly that prefix, once; a (re)registering worker is told to resume after its last CONFIRMED sequence (confirmedSeq+1); (4) worker sequences are assigned contiguously (currentSeq++ at dispatch) and emission is demand-checked (C43). That some worker eventually confirms (liveness) and exactly-once under all join/leave/fault histories are NOT decided.",
+		explanation: "Decides job conservation inside the work-pulling controller: a job lives in exactly one of {pending pool, a binding's unconfirmed list} until it is confirmed, and every move keeps it: (1) pending shrinks only in dispatchPending, where the removed head is appended to the chosen binding's unconfirmed list and emitted on every non-terminal path; pending grows only by acceptance (guarded by !owns, so a resubmitted job is not duplicated), by reload, and by requeue; (2) a binding is removed from the table only in endBinding, which first returns all of its unconfirmed jobs to the head of the pending pool with their MessageID, store sequence and payload; a replaced binding is ended before the new one is installed; every caller of endBinding runs progress() afterwards so requeued jobs are dispatched to the remaining workers; a worker's termination ends its binding; (3) entries leave an unconfirmed list only in advanceConfirmed as the prefix with workerSeq ≤ the confirmation, which is applied only for an authenticated binding after the range check; the producer-side confirmation notice is sent for exactly that prefix, once; a (re)registering worker is told to resume after its last CONFIRMED sequence (confirmedSeq+1); (4) worker sequences are assigned contiguously (currentSeq++ at dispatch) and emission is demand-checked (C43). That some worker eventually confirms (liveness) and exactly-once under all join/leave/fault histories are NOT decided. Added after seed C44b: in handleRegisterConsumer a binding is created only after its companion was watched on every path.",
 		assumptions: []string{"actor turn atomicity", "liveness of workers and timers", "durable queue contract (reload returns every unconfirmed job)"},
 		minObl:     39,
 		run:        runC44,
@@ -281,6 +281,26 @@ func runC44(c *Ctx) {
 		}
 		if n == 0 {
 			c.Undecided("registration-ack/site", "RegistrationAck construction found", "-", "no NewRegistrationAck in handleRegisterConsumer")
+		}
+		// a stopped worker's jobs return to the pool only through Terminated → handleTerminated → endBinding, so every
+		// companion that gets a binding is watched: on every path, the creation of a binding is preceded by Watch
+		hr := c.Func("actor", "workPullingProducerController.handleRegisterConsumer")
+		hf := c.NewFlow(hr)
+		bindings := c.Field("actor", "workPullingProducerController", "bindings")
+		newBinding := func(nd ast.Node) bool { _, _, ok := isMapWrite(hf.Info, nd, bindings); return ok }
+		watch := func(nd ast.Node) bool {
+			call, ok := nd.(*ast.CallExpr)
+			if !ok {
+				return false
+			}
+			cal := callee(hf.Info, call)
+			return cal != nil && cal.Name() == "Watch"
+		}
+		if len(hf.Find(newBinding)) == 0 {
+			c.Undecided("binding⇒watched", "every companion that gets a binding is watched", c.P.Pos(hr.Decl.Pos()), "binding creation not found")
+		} else {
+			w := hf.MustPrecede(watch, nil, newBinding)
+			c.Check(w == nil, "binding⇒watched", "a binding is created only after its companion was watched (the only route that requeues a stopped worker's jobs is its Terminated)", c.P.Pos(hr.Decl.Pos()), hf.describe(w))
 		}
 	})
 
